@@ -44,10 +44,5 @@ func (f *FailoverOf[V]) VerifKeyLockNames() []string {
 	zzverifsim.MuLock("verif-hook", &f.lock)
 	defer zzverifsim.MuUnlock("verif-hook", &f.lock)
 
-	out := make([]string, 0, len(f.keyLocks))
-	for k := range f.keyLocks {
-		out = append(out, k)
-	}
-
-	return out
+	return verifMapKeyNames(f.keyLocks)
 }
